@@ -724,21 +724,22 @@ theorem upperIndex_ok {counts : List Nat} {cap : Option Nat} {xr : Nat} (h : upp
       exact ⟨this.1, by intro c' hc'; injection hc' with hc'; subst hc'; exact this.2⟩
 
 theorem upperIndex_error {counts : List Nat} {cap : Option Nat} {e : PyErr} (h : upperIndex counts cap = .error e) :
-    e = .indexError ∧ (counts = [] ∨ ∃ c, cap = some c ∧ ∀ i < counts.length, ¬ counts.getD i 0 < c) := by
+    (e = .indexError ∧ counts = [] ∧ cap = none) ∨
+    (e = .valueError ∧ ∃ c, cap = some c ∧ ∀ i < counts.length, ¬ counts.getD i 0 < c) := by
   unfold upperIndex at h
   cases cap with
   | none =>
     simp only at h
     by_cases hl : counts.length = 0
     · simp only [hl, if_true] at h; injection h with h
-      exact ⟨h.symm, Or.inl (List.length_eq_zero_iff.mp hl)⟩
+      exact Or.inl ⟨h.symm, List.length_eq_zero_iff.mp hl, rfl⟩
     · simp [hl] at h
   | some c =>
     simp only at h
     cases hg : ((List.range counts.length).filter (fun i => decide (counts.getD i 0 < c))).getLast? with
     | none =>
       rw [hg] at h; injection h with h
-      refine ⟨h.symm, Or.inr ⟨c, rfl, ?_⟩⟩
+      refine Or.inr ⟨h.symm, c, rfl, ?_⟩
       intro i hi hlt
       rw [List.getLast?_eq_none_iff] at hg
       have : i ∈ (List.range counts.length).filter (fun i => decide (counts.getD i 0 < c)) :=
@@ -746,14 +747,14 @@ theorem upperIndex_error {counts : List Nat} {cap : Option Nat} {e : PyErr} (h :
       rw [hg] at this; simp at this
     | some i => rw [hg] at h; cases h
 
-
 /-- The initial state of the loop. -/
 def st0 (E : Nat → Rat → Rat) (cfg : Cfg) (xr : Nat) : St :=
   { l := 0, r := xr, mem := mem0 E cfg xr, trace := tr0 cfg xr }
 
 /-- Exhaustive description of `bisect1D` by stage. -/
 theorem bisect1D_spec (counts : List Nat) (E : Nat → Rat → Rat) (cfg : Cfg) :
-    (∃ e, upperIndex counts cfg.cap = .error e ∧ bisect1D counts E cfg = (.pyError e, [])) ∨
+    (∃ e, upperIndex counts cfg.cap = .error e ∧
+        bisect1D counts E cfg = (if e = .valueError then .valueError else .pyError e, [])) ∨
     ∃ xr, upperIndex counts cfg.cap = .ok xr ∧
       ((∃ o, pre E cfg xr = .inl o ∧ bisect1D counts E cfg = (o, tr0 cfg xr)) ∨
        (∃ ls, pre E cfg xr = .inr ls ∧
@@ -789,7 +790,7 @@ theorem bisect1D_bisection_path {counts : List Nat} {E : Nat → Rat → Rat} {c
       (∃ kv ∈ s.mem, kv.2 < 0) ∧
       finish counts E cfg i s = (.selected k h .bisection, tr) := by
   rcases bisect1D_spec counts E cfg with ⟨e, _, hb⟩ | ⟨xr, hu, ⟨o, hp, hb⟩ | ⟨ls, hp, ⟨i, s, e, _, hb⟩ | ⟨i, s, hl, hb⟩⟩⟩
-  · rw [hb] at hsel; cases hsel
+  · rw [hb] at hsel; by_cases he : e = .valueError <;> simp [he] at hsel
   · rw [hb] at hsel; injection hsel with h1 _; subst h1
     rcases pre_inl_cases hp with ⟨h', _⟩ | ⟨h', _⟩ | ⟨h', _⟩ | ⟨h', _⟩
     · cases h'
@@ -810,7 +811,7 @@ theorem bisect1D_early {counts : List Nat} {E : Nat → Rat → Rat} {cfg : Cfg}
     (hsel : bisect1D counts E cfg = (.selected k h p, tr)) (hp : p ≠ .bisection) :
     ∃ xr, upperIndex counts cfg.cap = .ok xr ∧ pre E cfg xr = .inl (.selected k h p) ∧ tr = tr0 cfg xr := by
   rcases bisect1D_spec counts E cfg with ⟨e, _, hb⟩ | ⟨xr, hu, ⟨o, hpre, hb⟩ | ⟨ls, hpre, ⟨i, s, e, _, hb⟩ | ⟨i, s, hl, hb⟩⟩⟩
-  · rw [hb] at hsel; cases hsel
+  · rw [hb] at hsel; by_cases he : e = .valueError <;> simp [he] at hsel
   · rw [hb] at hsel; injection hsel with h1 h2; subst h1; subst h2
     exact ⟨xr, hu, hpre, rfl⟩
   · rw [hb] at hsel; cases hsel
